@@ -1,6 +1,7 @@
 SPECIFICATION MCSpec
 CONSTANTS
+  Wide = TRUE
   MaxCalls = 6
   RepN = {0, 1, 2, 3}
-INVARIANTS LeftToRight StopsAtFirstFailure ErrorLocates PrefixOfFullRun Emit
+INVARIANTS LeftToRight StopsAtFirstFailure ErrorLocates PrefixOfFullRun ScorerFaithful Emit
 CHECK_DEADLOCK FALSE
